@@ -155,6 +155,9 @@ func gen(r *verifsim.Rng, tier string) (any, hx.Sched) {
 				// code parsed once by the base parser (a handler closure) declares a class through eval()
 				// while running on this VM
 				op.K = "evaldef"
+			} else if r.Intn(6) == 0 {
+				// a script running on this VM gives a class of its own a second name with class_alias()
+				op.K = "alias"
 			} else if r.Intn(3) == 0 {
 				// resolve a class that exists only as a file on the class path, on demand, through this VM
 				op.K = "autoload"
@@ -243,6 +246,7 @@ type sys struct {
 	evalNames int
 	evalLast  string
 	evalOn    map[string]int
+	aliasOn   map[string]int // alias name -> VM whose code called class_alias() (-1: that VM was discarded)
 }
 
 func (s *sys) vm(i int) data.VM {
@@ -504,6 +508,7 @@ func exec(t *testing.T, x any, s hx.Sched) *hx.Outcome {
 		}
 		sy.shared, sy.svars = prog, p.GetVariables()
 		sy.evalOn = map[string]int{}
+		sy.aliasOn = map[string]int{}
 		sy.env.VM.AddFunc(&hx.GoFunc{Name: "__evname", Params: []string{}, Fn: func(ctx data.Context, a []data.Value) (data.GetValue, data.Control) {
 			sy.evalNames++
 			sy.evalLast = fmt.Sprintf("EvDef%d", sy.evalNames)
@@ -623,6 +628,15 @@ func step(o *hx.Outcome, w *W, sy *sys, m *model, k int, op Op, log *[]string, o
 				sy.evalOn[sy.evalLast] = -1 // eval refused (it is on a temporary VM today): defined nowhere
 			}
 		}
+	case "alias":
+		alias := fmt.Sprintf("AlName%d", k)
+		src := fmt.Sprintf("<?php\nclass AlSrc%d { }\n$r = class_alias(\"AlSrc%d\", \"%s\");\n", k, k, alias)
+		_, failed := sy.runOn(op.VM, src, fmt.Sprintf("/verif/c12/alias%d_vm%d.php", k, op.VM))
+		*log = append(*log, fmt.Sprintf("%d alias vm%d %s -> %s", k, op.VM, alias, failed))
+		o.Probe("class_alias_called_on_a_vm", 1)
+		if failed == "" {
+			sy.aliasOn[alias] = op.VM
+		}
 	case "autoload":
 		name := op.Defs[0].Name
 		var c any
@@ -662,6 +676,11 @@ func step(o *hx.Outcome, w *W, sy *sys, m *model, k int, op Op, log *[]string, o
 		for name, on := range sy.evalOn {
 			if on == op.VM {
 				sy.evalOn[name] = -1
+			}
+		}
+		for name, on := range sy.aliasOn {
+			if on == op.VM {
+				sy.aliasOn[name] = -1
 			}
 		}
 		sy.temps[op.VM-1] = runtime.NewTempVM(sy.env.VM).(*runtime.TempVM)
@@ -815,6 +834,23 @@ func step(o *hx.Outcome, w *W, sy *sys, m *model, k int, op Op, log *[]string, o
 			}
 			if !has && want && on >= 0 {
 				o.Violate("C12/lost/eval/"+vmk, fmt.Sprintf("after step %d, vm%d does not have %s, which it declared through eval() (history: %s)", k, v, name, histStr(w, k)))
+			}
+		}
+		// names given with class_alias(): whatever the call does, the name belongs to the VM whose code gave it
+		var alNames []string
+		for name := range sy.aliasOn {
+			alNames = append(alNames, name)
+		}
+		sort.Strings(alNames)
+		for _, name := range alNames {
+			on := sy.aliasOn[name]
+			c, ok := sy.vm(v).GetClass(name)
+			if ok && c != nil && on != 0 && on != v {
+				vmk := "temp"
+				if v == 0 {
+					vmk = "base"
+				}
+				o.Violate("C12/leak/alias/into-"+vmk, fmt.Sprintf("after step %d, vm%d resolves %s, a name that code running on vm%d gave to one of its own classes with class_alias() (history: %s)", k, v, name, on, histStr(w, k)))
 			}
 		}
 		// classes loaded on demand: registered (without loading) exactly where they were loaded
